@@ -143,6 +143,15 @@ class MultimapResolver:
 
         return assignment_list
 
+    # an alignment that overlaps two sub-regions of a split locus is processed once per sub-region, with different genes:
+    # the copies have the same coordinates but may be assigned to different isoforms
+    @staticmethod
+    def same_alignment_in_two_regions(assignment1, assignment2):
+        return (assignment1.read_id == assignment2.read_id and assignment1.chr_id == assignment2.chr_id and
+                assignment1.start == assignment2.start and assignment1.end == assignment2.end and
+                assignment1.multimapper == assignment2.multimapper and
+                assignment1.genomic_region != assignment2.genomic_region)
+
     # finds groups of duplicated assignments
     @staticmethod
     def find_duplicates(assignment_list, assignment_indices):
@@ -166,7 +175,8 @@ class MultimapResolver:
                     # this assignment was already discarded - no need to compare it
                     continue
 
-                if assignment_list[index1] == assignment_list[index2]:
+                if assignment_list[index1] == assignment_list[index2] or \
+                        MultimapResolver.same_alignment_in_two_regions(assignment_list[index1], assignment_list[index2]):
                     # discard duplicating assignment with larger index
                     discarded_duplicates.add(index2)
 
